@@ -43,7 +43,7 @@ def _design(ctx, name):
     return name, r
 
 
-def replay_shapes(ctx, drv, cfg, prefix, only_search=False):
+def replay_shapes(ctx, drv, cfg, prefix, only_search=False, only_fetch=False):
     """Emit shapes at the real constants (mode `real`) and replay them on real fractions in four forms.
     Also used by C02 (search answers over posting lists that span several LID / ID / token blocks)."""
     cf = os.path.join(ctx.scratch, "shapes-%s.jsonl" % prefix)
@@ -64,9 +64,42 @@ def replay_shapes(ctx, drv, cfg, prefix, only_search=False):
             kind = re.split(r"[ :\[]", what.strip(), 1)[0][:24]       # ids / total / histogram / agg / fetch / panic / ...
             if only_search and kind in ("fetch", "layout"):
                 continue
+            if only_fetch and kind not in ("fetch", "panic", "error"):
+                continue
             sig = "%s:%s:%s:%s" % (prefix, m.get("form"), m.get("path"), kind)
         ctx.violation(sig, m, what="shape %s, form %s via %s: %s" % (m.get("i"), m.get("form"), m.get("path"), what[:300]))
     return cf, summ
+
+
+def pooled_seal_stage(ctx, drv, cf, prefix):
+    """Objects that sealing takes from sync.Pools (document-block writers, buffers) must not stay referenced by the
+    sealed fraction: a few small shapes with 4 KiB document blocks are sealed one after the other by ONE goroutine on
+    ONE processor with the collector off, so that the next seal certainly gets the previous seal's pooled objects;
+    the first fraction is probed again after the second seal (form sealed2)."""
+    picked = []
+    with open(cf) as fh:
+        for ln in fh:
+            c = json.loads(ln)
+            if c["i"] % 2 == 1 and not c.get("f9") and not c["cfg"].get("skipSort"):     # 4 KiB document blocks, sorted-docs rewriting on
+                picked.append((c["shape"]["n"] * c["shape"].get("bsz", 40), ln))
+    picked = [ln for _, ln in sorted(picked)[:4]]
+    if not picked:
+        return
+    pth = os.path.join(ctx.scratch, "shapes-pool-%s.jsonl" % prefix.replace(":", "_"))
+    with open(pth, "w") as fh:
+        fh.writelines(picked)
+    rc, outs, err = vlib.run_driver(drv, ["-workers", "1", "-forms", "active,sealed,sealed2"], stdin_path=pth, timeout=1800,
+                                    env={"GOMAXPROCS": "1", "GOGC": "off"}, ok_codes=range(0, 256))
+    if rc != 0 and not any("what" in o for o in outs):
+        raise vlib.Infra("shapes (pooled seal stage) died: " + err[-1500:])
+    for o in outs:
+        if o.get("infra"):
+            raise vlib.Infra("shapes (pooled seal stage): " + str(o["infra"]))
+        if "what" in o and not o.get("summary"):
+            kind = re.split(r"[ :\[]", str(o["what"]).strip(), 1)[0][:24]
+            ctx.violation("%s:pooled-seal:%s:%s:%s" % (prefix, o.get("form"), o.get("path"), kind), o,
+                          what="shape %s, form %s via %s (fractions sealed one after the other on one processor): %s" % (
+                              o.get("i"), o.get("form"), o.get("path"), str(o["what"])[:300]))
 
 
 def run(ctx):
@@ -87,6 +120,7 @@ def run(ctx):
     ctx.cov["selftest"] = "IndexLayout_tokens_asis9.cfg (Finding9 = TRUE) violates TokensOK as required"
     # 2. shapes at the real constants -> real fractions in every form
     cf, summ = replay_shapes(ctx, drv, "IndexLayout_real.cfg" if quick else "IndexLayout_realth.cfg", "c03")
+    pooled_seal_stage(ctx, drv, cf, "c03")
     nshape = nprobe = 0
     with open(cf) as fh:
         for ln in fh:
